@@ -72,6 +72,9 @@ theorem scanEq_trans {a b c : Key} (h1 : scanEq a b = true) (h2 : scanEq b c = t
 theorem scanEq_of_dictEq {a b : Key} (h : dictEq a b = true) : scanEq a b = true := by
   rw [dictEq_iff] at h; rw [scanEq_iff]
   cases a <;> cases b <;> simp_all [Key.dictRep, Key.eqRep]
+  obtain ⟨h1, h2⟩ := h
+  subst h2
+  split at h1 <;> split at h1 <;> split <;> split <;> simp_all <;> omega
 
 /-- `compare.same_key` is the `==` scan relation on this key domain -/
 theorem sameKeyPy_eq_scanEq (a b : Key) : sameKeyPy a b = scanEq a b := by
